@@ -4,6 +4,7 @@ import (
 	"fmt"
 	"go/ast"
 	"go/types"
+	"golang.org/x/tools/go/ssa"
 	"sort"
 	"strings"
 )
@@ -195,6 +196,45 @@ func rulesC20(c *Ctx) {
 	t := &totality{c: c, prop: "C20", inScope: func(fb funcBody) bool { return fb.Decl == cn && fb.Lit == nil }}
 	t.run()
 	shapeC20(c, cn)
+	syntheticC20(c, cn)
+}
+
+// syntheticC20: the columns ColumnNames invents for top()/bottom() tag
+// arguments take part in conflict resolution like any generated name.
+func syntheticC20(c *Ctx, cn *types.Func) {
+	p := c.P
+	c.Rule("C20.synthetic", "the Field values ColumnNames creates itself (for the tag arguments of top()/bottom()) carry no alias: the alias pass takes names verbatim and without a conflict check, which is right only for the aliases the user wrote and the property assumes distinct; a created column with an alias escapes the numeric-suffix resolution")
+	f := p.SSAFunc(cn)
+	if f == nil {
+		c.Unk("C20.synthetic", "(*SelectStatement).ColumnNames", 0, "no SSA body")
+		return
+	}
+	n := 0
+	for _, b := range f.Blocks {
+		for _, in := range b.Instrs {
+			a, ok := in.(*ssa.Alloc)
+			if !ok || p.TypeStr(a.Type()) != "*Field" {
+				continue
+			}
+			n++
+			key := fmt.Sprintf("(*SelectStatement).ColumnNames: created Field #%d", n)
+			bad := false
+			for _, ref := range *a.Referrers() {
+				if fa, ok := ref.(*ssa.FieldAddr); ok && fieldNameOf(fa) == "Alias" {
+					for _, r2 := range *fa.Referrers() {
+						if st, ok := r2.(*ssa.Store); ok && st.Addr == ssa.Value(fa) {
+							bad = true
+							c.Bad("C20.synthetic", key, st.Pos(), "the created column is given an alias: two top()/bottom() calls naming the same tag, or a tag named like another column, now yield duplicate column names")
+						}
+					}
+				}
+			}
+			if !bad {
+				c.OK("C20.synthetic", key, a.Pos(), "no alias stored")
+			}
+		}
+	}
+	c.Floor("C20.synthetic", n, 1)
 }
 
 // shapeC20 checks the loop structure of ColumnNames.
